@@ -515,14 +515,21 @@ def analyse(cases, impl, model, full, survivors=None):
         # (the harness writes sum as map(wrap).sum(): one more stage, possibly an eager one -- not compared)
         rph = [] if af.get("runphases", "-") == "-" else af["runphases"].split("/")
         truns = [r_ for r_, ph_ in zip(runs, rph) if ph_ == "1"]
-        if term != "sum" and len(rph) == len(runs):
+        n_src = max(0, n_in - int(cf.get("pre", "0")))
+        if mf.get("rlen", "?") not in ("?", "-"):
+            n_src = int(mf["rlen"])          # what the terminal's run iterates over (after eager sites)
+        if term != "sum" and len(rph) == len(runs) and n_src > 0:
             if mf.get("seq") == "1":
                 if truns:
                     oracle("C16", c, "worker threads were spawned by the terminal although the parameters last set are sequential", af["runs"])
             elif mf.get("runner", "-") != "-":
                 if not truns:
-                    oracle("C16", c, "the terminal ran on the calling thread although the parameters last set are not sequential",
-                           {"params_last_set": mf["params"], "runs": af["runs"]})
+                    if ip != mf["params"]:
+                        # the implementation itself reports other parameters than the ones set last: it ran under stale ones
+                        oracle("C16", c, "the terminal ran on the calling thread under stale parameters: the ones set last are not sequential",
+                               {"params_last_set": mf["params"], "params_reported": af["params"], "runs": af["runs"]})
+                    else:
+                        mism("seqpar", c, "no run inside the terminal", "parallel run with " + mf["runner"])
                 else:
                     t = truns[-1].split(":")
                     got_r = ":".join(t[1:4])
